@@ -166,6 +166,7 @@ type e8interp struct {
 	opaque  map[*types.Func]bool // repository functions that must not be entered
 	frozen  map[types.Object]bool // variables whose assignments are ignored (they stay inputs)
 	opaquePkg map[*types.Package]bool // packages whose functions must not be entered
+	rangeMax  int                 // range loops over opaque slices run 0..rangeMax times over distinct opaque elements
 	rangeOnce bool                // range loops run zero times or once (for rows that do not depend on them)
 	havoc   bool                  // variables written by a function literal handed to an opaque call become fresh atoms after the call
 }
@@ -1320,6 +1321,44 @@ func (in *e8interp) exec(fr *e8frame, st ast.Stmt) *e8return {
 		case token.CONTINUE:
 			return continueSignal
 		}
+	}
+	if rs, ok := st.(*ast.RangeStmt); ok && in.rangeMax > 0 {
+		// bounded abstraction of a range over an opaque slice: up to rangeMax iterations, each decided by an
+		// enumerated atom more(x)#j, over distinct opaque elements x[#j]
+		xname := in.valName(in.evalQuiet(fr, rs.X), rs.X)
+		info := fr.pkg.TypesInfo
+		for j := 0; j < in.rangeMax; j++ {
+			name := fmt.Sprintf("more(%s)#%d", xname, j)
+			enter := false
+			if in.collect != nil {
+				in.collect.bools[name] = true
+				enter = true
+			} else {
+				enter = in.a.B(name)
+			}
+			if !enter {
+				break
+			}
+			if id, ok := rs.Key.(*ast.Ident); ok && id.Name != "_" {
+				if o := info.ObjectOf(id); o != nil {
+					fr.vars[o] = &val{k: kInt, n: int64(j), typ: o.Type()}
+				}
+			}
+			if id, ok := rs.Value.(*ast.Ident); ok && id.Name != "_" {
+				if o := info.ObjectOf(id); o != nil {
+					fr.vars[o] = in.newInput(fmt.Sprintf("%s[#%d]", xname, j), o.Type())
+				}
+			}
+			if r := in.loopBody(fr, rs.Body); r != nil {
+				if r == breakSignal {
+					break
+				}
+				if r != continueSignal {
+					return r
+				}
+			}
+		}
+		return nil
 	}
 	if rs, ok := st.(*ast.RangeStmt); ok && in.rangeOnce {
 		// abstraction for rows that do not depend on the loop: the body runs zero times or once
